@@ -2,6 +2,6 @@ From Coq Require Extraction ExtrOcamlBasic.
 From Common Require Import Words.
 From Seq Require Import SeqSpec SeqModel SeqArrayMemModel.
 Extraction Language OCaml.
-Extraction "model.ml" anchor lstep pstep astep lspec_fun aspec pspec linit ainit sinit
+Extraction "model.ml" anchor lstep pstep astep lspec_fun aspec atext pspec linit ainit sinit
   lobs_res aobs_res key_full key_kv lget aget sget sort_vals sort_depth isort
   sstep swinit sabs live_blocks.
